@@ -140,6 +140,9 @@ func (x *Exec) assume(st *State, f *Term) {
 	if g == tTrue {
 		return
 	}
+	if !g.closed {
+		panic("assume: formula with a free bound variable: " + truncate(g.String(), 600))
+	}
 	if x.assumed == nil {
 		x.assumed = map[*Term]bool{}
 	}
@@ -151,6 +154,9 @@ func (x *Exec) assume(st *State, f *Term) {
 	// equivalent re-parametrised versions of quantified facts (better triggers)
 	for _, a := range altsOf(f) {
 		ag := mkImp(st.pc, a)
+		if !ag.closed {
+			panic("assume(alt): free bound variable: " + truncate(ag.String(), 400) + "\n  ORIGINAL: " + truncate(f.String(), 400))
+		}
 		if !x.assumed[ag] {
 			x.assumed[ag] = true
 			x.unit.Assumes = append(x.unit.Assumes, ag)
